@@ -33,8 +33,25 @@ fn usage() -> ! {
     std::process::exit(2)
 }
 
+struct StderrLog;
+impl log::Log for StderrLog {
+    fn enabled(&self, _: &log::Metadata) -> bool {
+        true
+    }
+    fn log(&self, r: &log::Record) {
+        eprintln!("[{} {}] {}", r.level(), r.target(), r.args());
+    }
+    fn flush(&self) {}
+}
+static LOGGER: StderrLog = StderrLog;
+
 fn main() {
     interp::install_quiet_panic_hook();
+    // debugging aid: VERIF_LOG=debug|info|trace prints the code's own log lines to stderr
+    if let Ok(l) = std::env::var("VERIF_LOG") {
+        let _ = log::set_logger(&LOGGER);
+        log::set_max_level(l.parse().unwrap_or(log::LevelFilter::Info));
+    }
     let args: Vec<String> = std::env::args().collect();
     if args.len() < 2 {
         usage();
